@@ -44,6 +44,7 @@ pub fn enum_case(index: u64, tier: Tier) -> Option<Value> {
 }
 
 fn gen(rng: &mut Rng, tier: Tier) -> Value {
+  crate::gen::HUGE_TEXTS.store(true, std::sync::atomic::Ordering::Relaxed);
   if rng.chance(1, 3) {
     return (super::c16::def().gen)(rng, tier);
   }
